@@ -327,7 +327,10 @@ func eval(cs Case, x *fw.Rec) {
 		}
 		pe.VerifCacheDebug(false)
 		res := ""
-		for _, q := range [][4]string{{"ns1/p1", "ns1/p2", "tcp", "80"}, {"ns1/p2", "ns1/p1", "tcp", "80"}, {"ns1/p2", "ns1/p1", "tcp", "http"}, {"ns1/p1", "10.1.2.3", "udp", "53"}, {"10.0.0.5", "ns1/p1", "tcp", "90"}} {
+		for _, q := range [][4]string{{"ns1/p1", "ns1/p2", "tcp", "80"}, {"ns1/p2", "ns1/p1", "tcp", "80"}, {"ns1/p2", "ns1/p1", "tcp", "http"}, {"ns1/p1", "10.1.2.3", "udp", "53"}, {"10.0.0.5", "ns1/p1", "tcp", "90"},
+			// peer, protocol and port strings as a command line may carry them: IPv6 address and CIDR, out-of-range address and prefix, empty and over-qualified names, unknown protocol, odd ports
+			{"ns1/p1", "::1", "tcp", "80"}, {"fd00::/8", "ns1/p1", "tcp", "80"}, {"ns1/p1", "300.1.1.1", "tcp", "80"}, {"10.0.0.0/33", "ns1/p1", "tcp", "80"}, {"", "ns1/p1", "tcp", "80"},
+			{"a/b/c", "ns1/p1", "tcp", "80"}, {"ns1/p1", "ns1/p2", "icmp", "80"}, {"ns1/p1", "ns1/p2", "tcp", "-1"}, {"ns1/p1", "ns1/p2", "tcp", "70000"}, {"ns1/p1", "ns1/p2", "", ""}, {"ns1/p1", "0.0.0.0/0", "sctp", "nosuch"}} {
 			v, e := pe.CheckIfAllowed(q[0], q[1], q[2], q[3])
 			res += fmt.Sprintf("%v/%v ", v, e != nil)
 		}
